@@ -289,6 +289,25 @@ func runC13(c *core.Ctx) {
 					cs.Fail("invariance/datagram-differs", det(core.W{"error": errStr(uerr), "datagram": vdump(ps)}))
 				}
 			}
+			// the decoded feedback belongs to the caller: after it has written into every chunk and
+			// delta it was given, decoding the same octets again (and the next chunkings of the same
+			// status sequence) must still give the model
+			written := mon.Scribble(t)
+			again, aerr, apan := gUnmarshalOwn(gen.TWCC, cloneBytes(e.B))
+			cs.Eval(1)
+			if apan != "" {
+				cs.Fail("panic/Unmarshal", det(core.W{"panic": apan}))
+				return
+			}
+			var aproj any
+			var aperr error
+			if aerr == nil {
+				aproj, aperr = projectTWCC(again.(*rtcp.TransportLayerCC))
+			}
+			if aerr != nil || aperr != nil || !mon.SemEqual(aproj, want) {
+				cs.Fail("invariance/after-caller-wrote-into-earlier-result", det(core.W{"scalars_overwritten": written, "error": errStr(aerr), "problem": fmt.Sprint(aperr), "decoded_again": vdump(again), "expected": vdump(want)}))
+				return
+			}
 		}
 	})
 	// (1b) status counts near 2^16 (where 16-bit counters wrap), final runs that overshoot
